@@ -6,7 +6,9 @@
 From Coq Require Import Reals ZArith List Bool Lia Lra Arith Permutation.
 From Interval Require Import Tactic.
 From PR Require Import Base.ZX Base.ListX Base.Slice Base.Num Base.RNum Model.Partition Model.Organise Model.ReduceMask
-     Proofs.C19_partition Proofs.C19_raa Proofs.C03_org Proofs.C03_pipe Proofs.C03_refuted Proofs.C03_sphere.
+     Model.Sched
+     Proofs.C19_partition Proofs.C19_raa Proofs.C03_org Proofs.C03_pipe Proofs.C03_refuted Proofs.C03_sphere Proofs.C03_compose.
+From PR Require Model.KDTree.
 Import ListNotations.
 Local Close Scope Z_scope.
 Local Open Scope nat_scope.
@@ -53,6 +55,51 @@ Proof.
   apply Permutation_sym. apply (Permutation_cons_app [mk_slice 3 5] [mk_slice 2 3] (mk_slice 0 2)).
   cbn. apply perm_swap.
 Qed.
+
+(* ---- nprocs, composed with C15: the tiling is no longer a hypothesis.  For EVERY configuration of _multi_proc.Scheduler
+   (guided / dynamic / static, any chunk, 32-bit counters: Sched.wf), any number nw >= 1 of worker processes and EVERY
+   interleaving [sched] of their atomic shared-memory actions after which all workers have returned, the slices actually
+   written (Sched.wdone, in completion order) leave out = map f x.  Uses C15's cover_all_done and writes_exactly_once. *)
+Theorem C03_nprocs_scheduler : forall (A B : Type) (f : A -> B) (xs : list A) (init : list B) c nw sched,
+  wf c -> Sched.n c = Z.of_nat (length xs) -> 1 <= nw -> workers_below nw sched -> all_done nw (run c sched) ->
+  length init = length xs ->
+  run_workers f xs (map to_pslice (wdone (run c sched))) init = map f xs.
+Proof. intros A B. exact (@nprocs_scheduler A B). Qed.
+Print Assumptions C03_nprocs_scheduler.
+(* ... and every fair schedule (each worker gets a turn in each of 7 n + 5 nw rounds) does get all workers to return *)
+Theorem C03_nprocs_scheduler_fair : forall (A B : Type) (f : A -> B) (xs : list A) (init : list B) c nw sched,
+  wf c -> Sched.n c = Z.of_nat (length xs) -> 1 <= nw -> workers_below nw sched ->
+  fair_rounds nw (Z.to_nat (7 * Sched.n c + 5 * Z.of_nat nw)) sched ->
+  length init = length xs ->
+  run_workers f xs (map to_pslice (wdone (run c sched))) init = map f xs.
+Proof. intros A B. exact (@nprocs_scheduler_fair A B). Qed.
+Print Assumptions C03_nprocs_scheduler_fair.
+Example C03_nprocs_scheduler_ex :
+  let c := mk_cfg 5 2 None Guided 32 in
+  let sched := repeat 1 6 ++ repeat 0 7 ++ concat (repeat [0; 1] 40) in     (* worker 1 takes the first slice, worker 0 finishes first *)
+  wf c /\ workers_below 2 sched /\ all_done 2 (run c sched)
+  /\ wdone (run c sched) <> slices (run c sched)
+  /\ run_workers (fun x => x * x) [1; 2; 3; 4; 5] (map to_pslice (wdone (run c sched))) [0; 0; 0; 0; 0] = [1; 4; 9; 16; 25].
+Proof.
+  cbv zeta. split; [unfold wf; cbn; lia|].
+  split; [apply Forall_forall; intros w Hw; vm_compute in Hw; repeat (destruct Hw as [<-|Hw]; [lia|]); destruct Hw|].
+  split; [intros w Hw; destruct w as [|[|w]]; [vm_compute; reflexivity|vm_compute; reflexivity|lia]|].
+  split; [vm_compute; discriminate|vm_compute; reflexivity].
+Qed.
+
+(* ---- composed with C02: for neighbours = 1 and exact squared distances, the index the model's query returns for a
+   target satisfies the contract C02 places on KDTree.query(k=1, distance_upper_bound=r) (Model/KDTree.knn_spec), so C02's
+   theorems about the nearest-neighbour result apply to every organisation of the work that this file proves equal to
+   the plain call. *)
+Theorem C03_query_meets_C02_contract : forall (src tgt : Type) (dist : tgt -> src -> Z) (r2 : Z) (s0 : src)
+    (pts : list src) (t : tgt),
+  KDTree.knn_spec r2 (fun j => dist t (nth j pts s0)) (seq 0 (length pts)) (nn_index dist r2 pts t).
+Proof. intros src tgt. exact (@nn_index_meets_contract src tgt). Qed.
+Print Assumptions C03_query_meets_C02_contract.
+Example C03_query_contract_ex :
+  nn_index (fun t s : Z => (t - s) * (t - s))%Z 30%Z [0; 10; 20]%Z 13%Z = 1
+  /\ nn_index (fun t s : Z => (t - s) * (t - s))%Z 30%Z [0; 10; 20]%Z 40%Z = 3.
+Proof. split; reflexivity. Qed.
 
 (* ---- two-step: _resample is get_sample_from_neighbour_info o get_neighbour_info; the info does not depend on the
    data, and the result for ANY dataset is a function of the neighbour info mapped back to source indices and of that
